@@ -608,7 +608,9 @@ class HTTP1Connection(httputil.HTTPConnection):
                 # Proxies sometimes cause Content-Length headers to get
                 # duplicated.  If all the values are identical then we can
                 # use them but if they differ it's an error.
-                pieces = re.split(r",\s*", headers["Content-Length"])
+                # Only SP and HTAB are optional whitespace; \s would also match
+                # obs-text such as \x85 and \xa0 in the latin1-decoded value.
+                pieces = re.split(r",[ \t]*", headers["Content-Length"])
                 if any(i != pieces[0] for i in pieces):
                     raise httputil.HTTPInputError(
                         "Multiple unequal Content-Lengths: %r"
